@@ -35,7 +35,7 @@ fn raw_out(s: &str) {
 }
 
 fn gate(name: &str) {
-    raw_out(&format!("AT {}\n", name));
+    raw_out(&format!("AT {} {}\n", name, now_ns()));
     // wait for one line on stdin
     let mut c = [0u8; 1];
     loop {
@@ -80,6 +80,22 @@ pub fn worker(a: &Args) -> i32 {
                     b.put(format!("{:04}", id).into_bytes(), vec![b'x'; 300]).map_err(|e| format!("{}", e))?;
                 }
                 tx.commit().map_err(|e| format!("{}", e))?;
+                // the handle is cloned for a helper thread (documented use); dropping the clone
+                // must not let anybody else in while the original is still open
+                let clone = db.clone();
+                let h = std::thread::spawn(move || {
+                    let r = (|| -> Result<(), jammdb::Error> {
+                        let tx = clone.tx(true)?;
+                        {
+                            let b = tx.get_or_create_bucket("helper")?;
+                            b.put("k", "v")?;
+                        }
+                        tx.commit()
+                    })();
+                    drop(clone);
+                    r.map_err(|e| format!("{}", e))
+                });
+                h.join().map_err(|_| "helper panicked".to_string())??;
                 Ok(seen)
             }));
             if gated {
@@ -109,6 +125,8 @@ pub fn worker(a: &Args) -> i32 {
 }
 
 struct W {
+    id: i64,
+    trace: std::rc::Rc<std::cell::RefCell<Vec<Value>>>,
     child: Child,
     stdin: ChildStdin,
     rx: Receiver<String>,
@@ -132,11 +150,21 @@ impl W {
             match self.rx.recv_timeout(deadline - now) {
                 Ok(line) => {
                     if let Some(n) = line.strip_prefix("AT ") {
-                        self.at = Some(n.trim().to_string());
+                        let mut it = n.trim().split(' ');
+                        let name = it.next().unwrap_or("").to_string();
+                        let ts: u64 = it.next().and_then(|x| x.parse().ok()).unwrap_or(0);
+                        self.at = Some(name.clone());
+                        self.trace.borrow_mut().push(json!({"ev":"at","p":self.id,"h":name,"ts":ts}));
                         return true;
                     }
                     if let Some(r) = line.strip_prefix("RESULT ") {
                         self.result = serde_json::from_str(r.trim()).ok();
+                        if let Some(rv) = &self.result {
+                            // the lock is released when the handle is dropped, right after t_close
+                            self.trace.borrow_mut().push(json!({"ev":"result","p":self.id,"res":rv["result"],
+                                "seen": rv.get("seen").cloned().unwrap_or(json!([])),
+                                "ts": rv.get("t_close").and_then(|x| x.as_u64()).unwrap_or(u64::MAX / 2)}));
+                        }
                         return true;
                     }
                 }
@@ -156,7 +184,7 @@ impl W {
     }
 }
 
-fn spawn(path: &str, id: i64, gated: bool, extra: &[String]) -> W {
+fn spawn(path: &str, id: i64, gated: bool, extra: &[String], trace: std::rc::Rc<std::cell::RefCell<Vec<Value>>>) -> W {
     let exe = std::env::current_exe().unwrap();
     let mut child = Command::new(exe)
         .arg("procs-worker")
@@ -182,7 +210,7 @@ fn spawn(path: &str, id: i64, gated: bool, extra: &[String]) -> W {
             }
         }
     });
-    W { child, stdin, rx, at: None, result: None, exited: false }
+    W { id, trace, child, stdin, rx, at: None, result: None, exited: false }
 }
 
 fn evaluate(ws: &mut HashMap<i64, W>, n: i64) -> (Vec<Value>, Vec<String>) {
@@ -243,6 +271,11 @@ pub fn run(a: &Args) -> i32 {
     let mut runs = 0u64;
     let mut bad = 0u64;
     let mut sample: Vec<Value> = Vec::new();
+    let mut tracew = if a.has("trace-out") {
+        Some(std::io::BufWriter::new(std::fs::File::create(a.s("trace-out", "")).unwrap()))
+    } else {
+        None
+    };
     let prepare = |path: &std::path::Path| {
         let _ = std::fs::remove_file(path);
         if exists {
@@ -256,13 +289,19 @@ pub fn run(a: &Args) -> i32 {
             crate::tick();
             prepare(&path);
             let mut ws: HashMap<i64, W> = HashMap::new();
+            let trace = std::rc::Rc::new(std::cell::RefCell::new(vec![json!({"ev":"reset","exists":exists,"idx":idx})]));
             for id in 1..=n {
-                ws.insert(id, spawn(path.to_str().unwrap(), id, true, &[]));
+                ws.insert(id, spawn(path.to_str().unwrap(), id, true, &[], trace.clone()));
             }
             let mut notes: Vec<String> = Vec::new();
-            for e in o["sched"].as_array().unwrap() {
-                let p = e[0].as_i64().unwrap();
-                let target = e[1].as_str().unwrap();
+            let mut inside: std::collections::HashSet<i64> = std::collections::HashSet::new();
+            let entries: Vec<(i64, String)> = o["sched"].as_array().unwrap().iter()
+                .map(|e| (e[0].as_i64().unwrap(), e[1].as_str().unwrap().to_string())).collect();
+            for (ei, (p, target)) in entries.iter().enumerate() {
+                let p = *p;
+                let target = target.as_str();
+                // who takes the lock next according to the model
+                let next_locker = entries[ei..].iter().find(|(_, t)| t == "open:locked").map(|(q, _)| *q);
                 let wk = ws.get_mut(&p).unwrap();
                 // run the process to the hook point the model names (others are passed through)
                 let mut hops = 0;
@@ -272,10 +311,20 @@ pub fn run(a: &Args) -> i32 {
                         break;
                     }
                     if wk.result.is_some() || wk.exited {
+                        inside.remove(&p);
                         break;
                     }
                     let at = wk.at.clone().unwrap_or_default();
                     if at == target {
+                        if at == "open:before_lock" && inside.iter().any(|q| *q != p) && next_locker == Some(p) {
+                            // negative probe: somebody else is inside, so this process may run
+                            // into flock() -- it must stay blocked there until the other one has
+                            // closed (checked on the recorded order of hook points)
+                            wk.go();
+                        }
+                        if at == "open:locked" {
+                            inside.insert(p);
+                        }
                         break; // parked where the model says this step ends
                     }
                     wk.go();
@@ -312,6 +361,14 @@ pub fn run(a: &Args) -> i32 {
             let (results, mut problems) = evaluate(&mut ws, n);
             problems.extend(notes);
             runs += 1;
+            if let Some(tw) = tracew.as_mut() {
+                // the order of events is the order of the workers' own monotonic timestamps
+                let mut evs = trace.borrow().clone();
+                evs.sort_by_key(|e| e.get("ts").and_then(|x| x.as_u64()).unwrap_or(0));
+                for e in evs.iter() {
+                    writeln!(tw, "{}", e).unwrap();
+                }
+            }
             if sample.len() < 2 {
                 sample.push(json!(results));
             }
@@ -334,7 +391,8 @@ pub fn run(a: &Args) -> i32 {
             let hold = rng.gen_range(0..12);
             params.push(json!([id, delay, hold]));
             ws.insert(id, spawn(path.to_str().unwrap(), id, false,
-                                &["--delay-ms".into(), delay.to_string(), "--hold-ms".into(), hold.to_string()]));
+                                &["--delay-ms".into(), delay.to_string(), "--hold-ms".into(), hold.to_string()],
+                                std::rc::Rc::new(std::cell::RefCell::new(Vec::new()))));
         }
         for id in 1..=n {
             let wk = ws.get_mut(&id).unwrap();
@@ -348,6 +406,9 @@ pub fn run(a: &Args) -> i32 {
             bad += 1;
             writeln!(w, "{}", json!({"idx": 1_000_000 + i, "problems": problems, "results": results, "ungated": params})).unwrap();
         }
+    }
+    if let Some(tw) = tracew.as_mut() {
+        tw.flush().unwrap();
     }
     writeln!(w, "{}", json!({"summary": true, "runs": runs, "bad": bad, "sample": sample})).unwrap();
     w.flush().unwrap();
